@@ -481,7 +481,12 @@ func (it *c02Interp) call(st *c02State, c *ssa.Call) bool {
 	name := ana.CalleeName(&c.Call)
 	var args []*sv
 	for _, a := range c.Call.Args {
-		args = append(args, it.val(st, a))
+		v := it.val(st, a)
+		if v.k == svAddrElem && v.name == "" {
+			// a pointer to an element handed to a helper: the element as it is at the call
+			v = &sv{k: svElem, i: v.i, sorted: st.sorted}
+		}
+		args = append(args, v)
 	}
 	switch {
 	case name == "builtin.len" || name == "builtin.cap":
